@@ -45,7 +45,17 @@ AuxPool == { S(a), S(<<>>), Un("opt", Id("m")), Bin("seq", Id("m"), S(a)), Bin("
              Un("not", Id("m")), Un("opt", S(a)), Bin("alt", S(a), Id("m")), Un("rep", S(a)),
              Bin("seq", Un("opt", S(a)), Id("m")), Id("r1"), MkUn("exact2", Id("m")) }
 WsPool  == { S(sp), S(<<>>), Un("opt", S(sp)), Un("not", S(sp)), Un("rep", S(sp)), Bin("alt", S(sp), S(<<>>)),
-             Id("m"), Bin("seq", S(sp), Un("opt", S(sp))), Un("rep1", S(sp)), Id("EOI") }
+             Id("m"), Bin("seq", S(sp), Un("opt", S(sp))), Un("rep1", S(sp)), Id("EOI"),
+             \* bodies that begin by consuming and hold a repetition that can spin further in
+             Bin("seq", S(sp), Un("rep", Un("not", S(a)))), Bin("seq", S(sp), Un("rep1", Un("opt", S(sp)))),
+             Bin("seq", S(sp), Un("rep", S(<<>>))), Bin("seq", S(sp), Un("rep", S(sp))) }
+
+\* a repetition whose body reaches the rule it stands in (directly or through r1) after that rule has consumed
+\* something: no left recursion, but the rule may be nullable and the repetition then spins
+SelfExprs ==
+  UNION { { Bin("alt", Bin("seq", pre, MkUn(op, t)), S(<<>>)), Bin("seq", pre, MkUn(op, t)), Un("opt", Bin("seq", pre, MkUn(op, t))),
+            Bin("alt", Bin("seq", pre, MkUn(op, t)), S(a)) }
+          : op \in {"rep", "rep1", "min0", "min1", "minmax02"}, t \in {Id("m"), Id("r1")}, pre \in {S(a), Un("opt", S(a)), Un("not", S(sp))} }
 
 \* shapes in which a rule is referenced twice (the validator's visited-set must be a path, not a set)
 TwX == { Id("r1"), S(a), S(<<>>), Un("opt", Id("r1")) }
@@ -84,6 +94,8 @@ Grammars ==
          \cup
          { [m |-> [ty |-> "", e |-> Bin("seq", S(a), S(a))], r1 |-> [ty |-> "", e |-> x],
             WHITESPACE |-> [ty |-> "_", e |-> Bin("seq", Id("r1"), Id("r1"))]] : x \in TwiceAux }
+    [] Slice = "self" ->
+         { [m |-> [ty |-> t, e |-> e], r1 |-> [ty |-> "", e |-> x]] : e \in SelfExprs, x \in AuxPool, t \in {"", "_"} }
     [] Slice = "rec" ->
          { [m |-> [ty |-> "", e |-> e], r1 |-> [ty |-> "", e |-> x]] : e \in Exprs, x \in AuxPool }
     [] Slice = "ws" ->
